@@ -322,18 +322,36 @@ def build_world(ctx: Ctx, loop, world_kw=None, connect_order=None):
     conns = list(scn["conns"])
     if connect_order is not None:
         conns = [conns[i] for i in connect_order]
+    calls = []  # [connection record of the call's options, [connections made by this call]]
     for c in conns:
+        if scn.get("multipair") and c["sa"]:
+            # several attribute pairs in ONE connect() call: connections between the same entities with the same options
+            # (and, per source attribute, the same initial data) are merged into the first such call
+            key = (c["src"], c["dst"], c["se"], c["de"], c["shift"], c["weak"], c["async"])
+            for k0, group in calls:
+                if k0 == key and all(g["sa"] != c["sa"] or g["init"] == c["init"] for g in group) \
+                        and not any(g["sa"] == c["sa"] and g["da"] == c["da"] for g in group):
+                    group.append(c)
+                    break
+            else:
+                calls.append((key, [c]))
+        else:
+            calls.append((None, [c]))
+    for _, group in calls:
+        c = group[0]
         ckw = {}
         if c["shift"]:
             ckw["time_shifted"] = c["shift"] if c["shift"] != 1 else True
         if c["weak"]:
             ckw["weak"] = True
-        if c["init"]:
-            ckw["initial_data"] = {c["sa"]: c["init"]}
+        init = {g["sa"]: g["init"] for g in group if g["init"]}
+        if init:
+            ckw["initial_data"] = init
         if c["async"]:
             ckw["async_requests"] = True
-        pairs = [(c["sa"], c["da"])] if c["sa"] else []
+        pairs = [(g["sa"], g["da"]) for g in group if g["sa"]]
         world.connect(ents[c["src"]][int(c["se"][1:])], ents[c["dst"]][int(c["de"][1:])], *pairs, **ckw)
+    for c in conns:
         if c["sa"]:
             ctx.has_out.add(c["src"])
     for s in scn["sims"]:
